@@ -58,7 +58,7 @@ def main():
     meta["demo_with_change"] = {"exit": w.returncode, "tail": (w.stdout + w.stderr)[-400:]}
     meta["demo_without_change"] = {"exit": wo.returncode, "tail": (wo.stdout + wo.stderr)[-300:]}
     if not a.skip_baseline:
-        b = sh(["/venv/bin/python", "/tmp/tools/baseline.py", str(wt)], timeout=3600)
+        b = sh(["/venv/bin/python", str(VERIF / "tools" / "baseline.py"), str(wt)], timeout=3600)
         meta["baseline_with_change"] = {"exit": b.returncode, "tail": b.stdout[-200:]}
     meta["checks"] = {}
     for c in [c for c in a.checks.split(",") if c]:
